@@ -4,6 +4,7 @@ import ServiceModel.Proofs.NoSlash
 import ServiceModel.Proofs.CountEq
 import ServiceModel.Proofs.CbCount
 import ServiceModel.Proofs.OnceRestart
+import ServiceModel.Proofs.GhostRestart
 /-!
 # C12 — Batch bookkeeping and module callbacks are exact (state part)
 -/
@@ -177,5 +178,24 @@ theorem counters_exact_across_restarts (hc : CfgOK cfg p) {s : State} (hr : Reac
     (c : CtxId) (x : Ctx) (hx : Map.get s.ctxs c = some x) (hb : x.bstate = .running) :
     (s.activeI.filter (fun r => r.ctx = c)).length + x.respN = x.reqN ∧ (Map.get s.expH c).isSome :=
   ⟨ceq_reachableR hc hr c x hx hb, (reachableR_invAll hc hr).inv.x.bRunExp c x hx hb⟩
+
+/-- "One callback per batch" over chains with any number of zero-height restarts. The chain is run with two observers:
+    `n c`, the response callbacks invoked so far for context `c`, and `k c`, the batches of `c` that were in flight at a
+    restart (`cancelled`: the preparation refunds their requests and marks the batch completed without a callback).
+    For every context created by a module: callbacks + batches cancelled by a restart + (1 if a batch is in flight) =
+    batches started. So on a chain with restarts too every completed batch got exactly one callback, except those a
+    restart cancelled, which got none, and no callback is invoked without a batch. -/
+theorem callbacks_match_batches_across_restarts (hc : CfgOK cfg p) {s : State} {n k : CtxId → Nat}
+    (hr : CReachR cfg p h0 t0 s n k) (c : CtxId) (x : Ctx) (hx : Map.get s.ctxs c = some x) (hm : x.mod ≠ "") :
+    n c + k c + (if x.bstate = .running then 1 else 0) = x.batch := (cbokR_reachableR hc hr).2 c x hx hm
+
+/-- … no callback and no cancellation for a context id that was never created. -/
+theorem no_callback_without_context_across_restarts (hc : CfgOK cfg p) {s : State} {n k : CtxId → Nat}
+    (hr : CReachR cfg p h0 t0 s n k) (c : CtxId) (hu : c ∉ s.usedIds) : n c = 0 ∧ k c = 0 :=
+  (cbokR_reachableR hc hr).1 c hu
+
+/-- Every state of a chain with restarts is observed; without a restart nothing is ever counted as cancelled. -/
+theorem every_chain_with_restarts_is_counted {s : State} (hr : ReachableR cfg p h0 t0 s) :
+    ∃ n k, CReachR cfg p h0 t0 s n k := reachableR_has_count hr
 
 end SM.C12
